@@ -615,3 +615,7 @@ unit("C11", "run_evolve")(_CR.evolve_unit)
 unit("C11", "resimulation.pairs")(_CR.pairs_unit)
 unit("C11", "extract")(_CR.extract_unit)
 STANDIN = {r"run_evolve": _CR.EVOLVE_REPLAY, r"resimulation\.pairs|extract": _CR.PAIRS_REPLAY}
+
+
+from . import calibreport as _CRc  # noqa: E402
+unit("C11", "calibration.ctor")(_CRc.calibration_ctor_unit)      # Calibration.__init__ keeps the seeds / settings it is given (0 included)
